@@ -573,4 +573,461 @@ theorem naEOH_nn (h : Nat) (b : Buf) (lo : Nat) (pf : PFromBody) (i e n crl : Na
     · show (setFromParamVal b pf).v.offs ≥ lo
       rw [c3]; exact hI.1
 
+/-! ### every exit of the loop body -/
+
+/-- what holds of a finishing step: a complete value is nested and starts at or after `lo`; after MoreBytes the
+    invariant is carried on -/
+def NnDone (lo : Nat) (e : Err) (st' : PFromBody) : Prop :=
+  (Err.complete e → NaNest st' ∧ lo ≤ st'.v.offs) ∧ (e = .moreBytes → NnInv lo st')
+
+theorem NnDone.err {lo : Nat} {e : Err} {st' : PFromBody} (h1 : e ≠ .ok) (h2 : e ≠ .moreValues) (h3 : e ≠ .moreBytes) :
+    NnDone lo e st' :=
+  ⟨(fun hc => by rcases hc with hc | hc; exact absurd hc h1; exact absurd hc h2), fun hh => absurd hh h3⟩
+
+theorem NnInv.saveS {lo : Nat} {pf : PFromBody} (h : NnInv lo pf) : NnInv lo pf.saveS := by
+  unfold NnInv at h ⊢
+  show NnSt lo pf.saveS pf.state
+  cases hst : pf.state <;> rw [hst] at h <;> exact h
+
+theorem NnDone.more {lo : Nat} {st' : PFromBody} (h : NnInv lo st') : NnDone lo .moreBytes st' :=
+  ⟨(fun hc => by rcases hc with hc | hc <;> cases hc), fun _ => h⟩
+
+/-- the end-of-value code run with an explicit value end `e ≤ i` -/
+theorem naEOH_nndone (h : Nat) (b : Buf) (lo : Nat) (pf : PFromBody) (i e n crl : Nat) (r : Err) (hr : r ≠ .moreBytes)
+    (hfit : i < 65536) (hC : NaCore b i pf) (hI : NnInv lo pf) (he : e ≤ i) (hs : pf.state = .nameOrURI → pf.s ≤ e)
+    (hv : pf.v.offs ≤ e) (hp : pf.params.offs ≤ e) (hu : pf.uri.offs + pf.uri.len ≤ e)
+    (ht : pf.tag.offs + pf.tag.len ≤ e)
+    (hve : pf.state = .paramValEnd ∨ pf.state = .possibleValEnd → pf.vend ≤ e) :
+    NnDone lo (naEOH h b pf e n crl r).2.1 (naEOH h b pf e n crl r).2.2 :=
+  ⟨naEOH_nn h b lo pf i e n crl r hfit hC hI he hs hv hp hu ht hve,
+   fun hh => absurd hh (naEOH_ne_more h b pf e n crl r hr)⟩
+
+/-- … with the value ending at the current position -/
+theorem naEOH_nndone_at (h : Nat) (b : Buf) (lo : Nat) (pf : PFromBody) (i n crl : Nat) (r : Err) (hr : r ≠ .moreBytes)
+    (hfit : i < 65536) (hS : NaSafe b i pf) (hI : NnInv lo pf) :
+    NnDone lo (naEOH h b pf i n crl r).2.1 (naEOH h b pf i n crl r).2.2 :=
+  naEOH_nndone h b lo pf i i n crl r hr hfit hS.toNaCore hI (Nat.le_refl _) (fun _ => hS.s) hS.toNaCore.voffs
+    hS.params.1 hS.uri hS.tag (fun _ => hS.vend)
+
+theorem naLWS_nndone (h : Nat) (b : Buf) (i lo : Nat) (pf : PFromBody) (hfit : i < 65536) (hS : NaSafe b i pf)
+    (hI : NnInv lo pf) {o : Nat} {e : Err} {st' : PFromBody} (hs : naLWS h b i pf = .done o e st') :
+    NnDone lo e st' := by
+  unfold naLWS lwsStd at hs
+  rcases hsk : skipLWS b i 0 with ⟨n, crl, e1⟩
+  rw [hsk] at hs
+  have hv := skipLWS_verdicts b i 0 hsk
+  rcases hv with rfl | rfl | rfl | rfl <;> simp only at hs
+  · cases hs
+  · simp only [Step.done.injEq] at hs
+    obtain ⟨rfl, rfl, rfl⟩ := hs
+    exact naEOH_nndone_at h b lo pf i n crl .ok (by decide) hfit hS hI
+  · cases hs; exact NnDone.err (by decide) (by decide) (by decide)
+  · cases hs; exact NnDone.more hI.saveS
+
+theorem naMoreValues_nndone (h : Nat) (b : Buf) (lo : Nat) (pf : PFromBody) (i : Nat) (hfit : i < 65536)
+    (hS : NaSafe b i pf) (hI : NnInv lo pf)
+    {o : Nat} {e : Err} {st' : PFromBody} (hs : naMoreValues h b pf i = .done o e st') : NnDone lo e st' := by
+  unfold naMoreValues at hs
+  simp only [Step.done.injEq] at hs
+  obtain ⟨rfl, rfl, rfl⟩ := hs
+  exact naEOH_nndone_at h b lo pf i i 1 .moreValues (by decide) hfit hS hI
+
+theorem naCommaAfterWS_nndone (h : Nat) (b : Buf) (lo : Nat) (pf : PFromBody) (i e : Nat) (hfit : i < 65536)
+    (hS : NaSafe b i pf) (hI : NnInv lo pf) (he : e ≤ i) (hst : pf.state ≠ .nameOrURI)
+    (hv : pf.v.offs ≤ e) (hp : pf.params.offs ≤ e) (hu : pf.uri.offs + pf.uri.len ≤ e)
+    (ht : pf.tag.offs + pf.tag.len ≤ e)
+    (hve : pf.state = .paramValEnd ∨ pf.state = .possibleValEnd → pf.vend ≤ e)
+    {o : Nat} {e' : Err} {st' : PFromBody} (hs : naCommaAfterWS h b pf i e = .done o e' st') : NnDone lo e' st' := by
+  unfold naCommaAfterWS at hs
+  split at hs
+  · simp only [Step.done.injEq] at hs
+    obtain ⟨rfl, rfl, rfl⟩ := hs
+    exact naEOH_nndone h b lo pf i e i 1 .moreValues (by decide) hfit hS.toNaCore hI he (fun hh => absurd hh hst)
+      hv hp hu ht hve
+  · cases hs; exact NnDone.err (by decide) (by decide) (by decide)
+
+theorem naStepA_nndone (h : Nat) (b : Buf) (i lo : Nat) (c : UInt8) (pf : PFromBody) (hfit : i < 65535) (hlo : lo ≤ i)
+    (hS : NaSafe b i pf)
+    (hg : pf.state = .init ∨ pf.state = .name ∨ pf.state = .nameOrURI ∨ pf.state = .nameOrURIEnd) (hI : NnInv lo pf)
+    {o : Nat} {e : Err} {st' : PFromBody} (hs : naStepA h b i c pf = .done o e st') : NnDone lo e st' := by
+  have hS0 := hS
+  obtain ⟨⟨h1, h2, h3, h4, h5, h6, h7, h8, h9, h10⟩, h11, h12⟩ := hS
+  have hI0 := hI
+  unfold NnInv at hI
+  rcases hg with hg | hg | hg | hg <;> rw [hg] at hI <;> unfold naStepA at hs <;>
+    (nn_state hg at hs) <;>
+    (repeat' (split at hs)) <;>
+    first
+      | exact naLWS_nndone h b i lo _ (by omega) hS0 hI0 hs
+      | (refine naLWS_nndone h b i lo _ (by omega) ?_ ?_ hs
+         · refine ⟨⟨?_, ?_, ?_, ?_, ?_, ?_, ?_, ?_, ?_, ?_⟩, ?_, ?_⟩ <;> na_fld
+         · unfold NnInv
+           nn_step hI hg)
+      | exact naMoreValues_nndone h b lo _ i (by omega) hS0 hI0 hs
+      | (cases hs <;> exact NnDone.err (by decide) (by decide) (by decide))
+
+theorem naStepQ_nndone (h : Nat) (b : Buf) (i lo : Nat) (c : UInt8) (pf : PFromBody) (hfit : i < 65535)
+    (hS : NaSafe b i pf) (hI : NnInv lo pf)
+    {o : Nat} {e : Err} {st' : PFromBody} (hs : naStepQ h b i c pf = .done o e st') : NnDone lo e st' := by
+  unfold naStepQ at hs
+  repeat' (split at hs)
+  all_goals first
+    | exact naLWS_nndone h b i lo _ (by omega) hS hI hs
+    | (cases hs; exact NnDone.more hI.saveS)
+    | (cases hs <;> exact NnDone.err (by decide) (by decide) (by decide))
+
+theorem naStepU_nndone (i lo : Nat) (c : UInt8) (pf : PFromBody)
+    {o : Nat} {e : Err} {st' : PFromBody} (hs : naStepU i c pf = .done o e st') : NnDone lo e st' := by
+  unfold naStepU at hs
+  repeat' (split at hs)
+  all_goals (cases hs <;> exact NnDone.err (by decide) (by decide) (by decide))
+
+theorem naStepUF_nndone (h : Nat) (b : Buf) (i lo : Nat) (c : UInt8) (pf : PFromBody) (hfit : i < 65535)
+    (hS : NaSafe b i pf) (hI : NnInv lo pf)
+    {o : Nat} {e : Err} {st' : PFromBody} (hs : naStepUF h b i c pf = .done o e st') : NnDone lo e st' := by
+  unfold naStepUF at hs
+  repeat' (split at hs)
+  all_goals first
+    | exact naLWS_nndone h b i lo _ (by omega) hS hI hs
+    | exact naMoreValues_nndone h b lo _ i (by omega) hS hI hs
+    | (cases hs <;> exact NnDone.err (by decide) (by decide) (by decide))
+
+theorem naStepStar_nndone (h : Nat) (b : Buf) (i lo : Nat) (c : UInt8) (pf : PFromBody) (hfit : i < 65535)
+    (hS : NaSafe b i pf) (hI : NnInv lo pf)
+    {o : Nat} {e : Err} {st' : PFromBody} (hs : naStepStar h b i c pf = .done o e st') : NnDone lo e st' := by
+  unfold naStepStar at hs
+  split at hs
+  · exact naLWS_nndone h b i lo _ (by omega) hS hI hs
+  · cases hs; exact NnDone.err (by decide) (by decide) (by decide)
+
+theorem naStepP_nndone (h : Nat) (b : Buf) (i lo : Nat) (c : UInt8) (pf : PFromBody) (hfit : i < 65535)
+    (hS : NaSafe b i pf)
+    (hg : pf.state = .newParam ∨ pf.state = .newPossibleParam ∨ pf.state = .paramName ∨ pf.state = .possibleParamName)
+    (hI : NnInv lo pf)
+    {o : Nat} {e : Err} {st' : PFromBody} (hs : naStepP h b i c pf = .done o e st') : NnDone lo e st' := by
+  unfold naStepP at hs
+  split at hs
+  · rcases hsk : skipLWS b i 0 with ⟨n, crl, e1⟩
+    rw [hsk] at hs
+    have hv := skipLWS_verdicts b i 0 hsk
+    have hX := naNameWS_safe b i i pf hS (Nat.le_refl _) hS.hi
+    rcases hv with rfl | rfl | rfl | rfl <;> simp only at hs
+    · cases hs
+    · simp only [Step.done.injEq] at hs
+      obtain ⟨rfl, rfl, rfl⟩ := hs
+      exact naEOH_nndone_at h b lo _ i n crl .ok (by decide) (by omega) hX (naNameWS_nn b i lo pf hS hg hI)
+    · cases hs; exact NnDone.err (by decide) (by decide) (by decide)
+    · cases hs; exact NnDone.more hI.saveS
+  · repeat' (split at hs)
+    all_goals first
+      | exact naMoreValues_nndone h b lo _ i (by omega) hS hI hs
+      | (cases hs <;> exact NnDone.err (by decide) (by decide) (by decide))
+
+theorem naValWS_nn_false (b : Buf) (i n lo : Nat) (pf : PFromBody) (hS : NaSafe b i pf)
+    (hg : pf.state = .newParamVal ∨ pf.state = .newPossibleVal ∨ pf.state = .paramVal ∨ pf.state = .possibleVal)
+    (hI : NnInv lo pf) : NnInv lo (naValWS pf i n false) := by
+  obtain ⟨⟨h1, h2, h3, h4, h5, h6, h7, h8, h9, h10⟩, h11, h12⟩ := hS
+  have hI0 := hI
+  unfold NnInv at hI
+  rcases hg with hg | hg | hg | hg <;> rw [hg] at hI <;> unfold naValWS <;>
+    simp only [hg, Bool.false_eq_true, ↓reduceIte] <;>
+    first
+      | exact hI0
+      | (unfold NnInv; nn_step hI hg)
+
+theorem naStepV_nndone (h : Nat) (b : Buf) (i lo : Nat) (c : UInt8) (pf : PFromBody) (hfit : i < 65535)
+    (hS : NaSafe b i pf)
+    (hg : pf.state = .newParamVal ∨ pf.state = .newPossibleVal ∨ pf.state = .paramVal ∨ pf.state = .possibleVal)
+    (hI : NnInv lo pf)
+    {o : Nat} {e : Err} {st' : PFromBody} (hs : naStepV h b i c pf = .done o e st') : NnDone lo e st' := by
+  unfold naStepV at hs
+  split at hs
+  · rcases hsk : skipLWS b i 0 with ⟨n, crl, e1⟩
+    rw [hsk] at hs
+    have hv := skipLWS_verdicts b i 0 hsk
+    have hX := naValWS_safe b i i pf false hS (Nat.le_refl _) hS.hi
+    rw [← naValWS_false pf i n] at hX
+    rcases hv with rfl | rfl | rfl | rfl <;> simp only at hs
+    · cases hs
+    · simp only [Step.done.injEq] at hs
+      obtain ⟨rfl, rfl, rfl⟩ := hs
+      exact naEOH_nndone_at h b lo _ i n crl .ok (by decide) (by omega) hX (naValWS_nn_false b i n lo pf hS hg hI)
+    · cases hs; exact NnDone.err (by decide) (by decide) (by decide)
+    · cases hs; exact NnDone.more hI.saveS
+  · repeat' (split at hs)
+    all_goals first
+      | exact naMoreValues_nndone h b lo _ i (by omega) hS hI hs
+      | (cases hs <;> exact NnDone.err (by decide) (by decide) (by decide))
+
+theorem naStepPE_nndone (h : Nat) (b : Buf) (i lo : Nat) (c : UInt8) (pf : PFromBody) (hfit : i < 65535)
+    (hS : NaSafe b i pf) (hg : pf.state = .paramNameEnd ∨ pf.state = .possibleParamNameEnd) (hI : NnInv lo pf)
+    {o : Nat} {e : Err} {st' : PFromBody} (hs : naStepPE h b i c pf = .done o e st') : NnDone lo e st' := by
+  have hE := hS.endP hg
+  have hK : pf.uri.offs + pf.uri.len ≤ pf.pend ∧ pf.tag.offs + pf.tag.len ≤ pf.pend := by
+    have hI' := hI
+    unfold NnInv at hI'
+    rcases hg with g | g <;> rw [g] at hI' <;> simp only [NnSt, NnP] at hI' <;> omega
+  unfold naStepPE at hs
+  repeat' (split at hs)
+  all_goals first
+    | exact naCommaAfterWS_nndone h b lo pf i pf.pend (by omega) hS hI hS.pend
+        (by rcases hg with g | g <;> rw [g] <;> decide) hE.1 hE.2 hK.1 hK.2
+        (fun hh => by rcases hg with g | g <;> rw [g] at hh <;> rcases hh with hh | hh <;> cases hh) hs
+    | (cases hs <;> exact NnDone.err (by decide) (by decide) (by decide))
+
+theorem naStepVE_nndone (h : Nat) (b : Buf) (i lo : Nat) (c : UInt8) (pf : PFromBody) (hfit : i < 65535)
+    (hS : NaSafe b i pf) (hg : pf.state = .paramValEnd ∨ pf.state = .possibleValEnd) (hI : NnInv lo pf)
+    {o : Nat} {e : Err} {st' : PFromBody} (hs : naStepVE h b i c pf = .done o e st') : NnDone lo e st' := by
+  have hE := hS.endV hg
+  have hK : pf.uri.offs + pf.uri.len ≤ pf.vend ∧ pf.tag.offs + pf.tag.len ≤ pf.vend := by
+    have hI' := hI
+    unfold NnInv at hI'
+    rcases hg with g | g <;> rw [g] at hI' <;> simp only [NnSt, NnP] at hI' <;> omega
+  unfold naStepVE at hs
+  repeat' (split at hs)
+  all_goals first
+    | exact naCommaAfterWS_nndone h b lo pf i pf.vend (by omega) hS hI hS.vend
+        (by rcases hg with g | g <;> rw [g] <;> decide) hE.1 hE.2 hK.1 hK.2 (fun _ => Nat.le_refl _) hs
+    | (cases hs <;> exact NnDone.err (by decide) (by decide) (by decide))
+
+/-- **every exit of the loop body: a complete value is nested** -/
+theorem naStep_nndone (h : Nat) (b : Buf) (i lo : Nat) (c : UInt8) (pf : PFromBody) (hfit : i < 65535) (hlo : lo ≤ i)
+    (hS : NaSafe b i pf) (hI : NnInv lo pf)
+    {o : Nat} {e : Err} {st' : PFromBody} (hs : naStep h b i c pf = .done o e st') : NnDone lo e st' := by
+  unfold naStep at hs
+  split at hs
+  all_goals first
+    | exact naStepA_nndone h b i lo c pf hfit hlo hS (by simp [*]) hI hs
+    | exact naStepQ_nndone h b i lo c pf hfit hS hI hs
+    | exact naStepU_nndone i lo c pf hs
+    | exact naStepUF_nndone h b i lo c pf hfit hS hI hs
+    | exact naStepP_nndone h b i lo c pf hfit hS (by simp [*]) hI hs
+    | exact naStepPE_nndone h b i lo c pf hfit hS (by simp [*]) hI hs
+    | exact naStepV_nndone h b i lo c pf hfit hS (by simp [*]) hI hs
+    | exact naStepVE_nndone h b i lo c pf hfit hS (by simp [*]) hI hs
+    | exact naStepStar_nndone h b i lo c pf hfit hS hI hs
+    | cases hs
+
+/-! ### ParseNameAddrPVal -/
+
+theorem NnInv.soffs {lo : Nat} {pf : PFromBody} (k : Nat) (h : NnInv lo pf) : NnInv lo { pf with soffs := k } := by
+  unfold NnInv at h ⊢
+  show NnSt lo { pf with soffs := k } pf.state
+  cases hst : pf.state <;> rw [hst] at h <;> exact h
+
+/-- a step that suspends in the initial state leaves the initial state -/
+theorem naStep_more_init (h : Nat) (b : Buf) (i : Nat) (c : UInt8) (pf : PFromBody) (hi : pf.state = .init)
+    {o : Nat} {st' : PFromBody} (hs : naStep h b i c pf = .done o .moreBytes st') : st'.state = .init := by
+  unfold naStep at hs
+  rw [hi] at hs
+  simp only at hs
+  unfold naStepA at hs
+  nn_state hi at hs
+  repeat' (split at hs)
+  all_goals first
+    | (unfold naLWS at hs
+       rw [lwsStd_more_state b i pf _ _ (fun s j n crl => naEOH_ne_more h b s j n crl .ok (by decide)) hs]
+       exact hi)
+    | exact absurd hs (naMoreValues_ne_more h b _ i)
+    | cases hs
+
+/-- a suspended run that has left the initial state has consumed at least one byte: the returned offset is
+    positive -/
+theorem na_more_pos (h : Nat) (b : Buf) (i : Nat) (pf : PFromBody) (h0 : pf.state = .init ∨ 0 < i)
+    {o : Nat} {st' : PFromBody} (hr : runLoop (naMachine h) b i pf = (o, Err.moreBytes, st')) :
+    st'.state = .init ∨ 0 < o := by
+  have key := runLoop_inv (naMachine h) b (fun j st => st.state = .init ∨ 0 < j)
+    (fun r => r.2.1 = .moreBytes → (r.2.2.state = .init ∨ 0 < r.1))
+    (by
+      intro j c st j' st' _ _ _
+      exact ⟨fun hlt => Or.inr (by omega), fun _ hq => by cases hq⟩)
+    (by
+      intro j c st o2 e2 st2 hb hP hs hq
+      subst hq
+      change naStep h b j c st = .done o2 .moreBytes st2 at hs
+      rcases hP with hP | hP
+      · exact Or.inl (naStep_more_init h b j c st hP hs)
+      · right
+        rcases naStep_suspend h b j c st hs with ⟨rfl, _⟩ | ⟨_, st1, _, _, h3, _⟩
+        · exact hP
+        · unfold naLWS lwsStd at h3
+          rcases hsk : skipLWS b j 0 with ⟨n, crl, e⟩
+          rw [hsk] at h3
+          have hrg := skipLWS_range b j 0 hsk
+          cases e <;> simp only at h3
+          case moreBytes => simp only [Step.done.injEq] at h3; omega
+          case eoh =>
+            exfalso
+            have hne := naEOH_ne_more h b st1 j n crl .ok (by simp)
+            simp only [Step.done.injEq] at h3
+            exact hne h3.2.1
+          all_goals cases h3)
+    (by
+      intro j st _ hP _
+      simp only [naMachine]; exact hP)
+    i pf h0
+  rw [hr] at key
+  exact key rfl
+
+/-- what a caller may pass to have the nesting theorem: an object that is new, or was returned with MoreBytes by
+    an earlier call of the same value parse (which started at `lo`), at an offset `o ≥ lo` -/
+def NnEntry (b : Buf) (o lo : Nat) (pf : PFromBody) : Prop :=
+  lo ≤ o ∧ pf.state ≠ .fin ∧ (pf.state = .init ∨ 0 < o) ∧
+  NaSafe b o { pf with s := pf.soffs, soffs := 0 } ∧ NnInv lo { pf with s := pf.soffs, soffs := 0 }
+
+theorem NnEntry_new (b : Buf) (o : Nat) (ho : o ≤ b.size) : NnEntry b o o {} := by
+  refine ⟨Nat.le_refl _, by decide, Or.inl rfl, ?_, ?_⟩
+  · rcases NaEntry_new b o ho with hE | hE
+    · exact absurd hE.1 (by decide)
+    · exact hE.2
+  · unfold NnInv
+    show NnSt o _ FBState.init
+    simp only [NnSt, NnE]
+    decide
+
+/-- the entry condition does not depend on the bytes, only on the buffer being long enough -/
+theorem NnEntry.grow {b b' : Buf} {o lo : Nat} {pf : PFromBody} (h : NnEntry b o lo pf) (hb : o ≤ b'.size) :
+    NnEntry b' o lo pf := by
+  obtain ⟨h1, h2, h3, h4, h5⟩ := h
+  exact ⟨h1, h2, h3, ⟨⟨hb, h4.pend, h4.vend, h4.s, h4.name, h4.uri, h4.tag, h4.params, h4.v, h4.pnc⟩, h4.endP, h4.endV⟩, h5⟩
+
+/-- **nesting theorem for ParseNameAddrPVal** (any header kind; buffers within the 65,535-byte limit): a parse of one
+    value that started at `lo` on a new object — in one call, or continued over the objects returned with MoreBytes —
+    and ends with OK or MoreValues leaves a value whose sub-fields are nested and ordered (`NaNest`) and which
+    starts at or after `lo`; after MoreBytes the object is again a legitimate argument at the returned offset. -/
+theorem parseNameAddrPVal_nest (h : Nat) (b : Buf) (o lo : Nat) (pf : PFromBody) (hfit : b.size ≤ 65535)
+    (hE : NnEntry b o lo pf) {o' : Nat} {e : Err} {pf' : PFromBody}
+    (hr : parseNameAddrPVal h b o pf = (o', e, pf')) :
+    (Err.complete e → NaNest pf' ∧ lo ≤ pf'.v.offs) ∧ (e = .moreBytes → NnEntry b o' lo pf') := by
+  obtain ⟨hlo, hnf, hpos, hS, hI⟩ := hE
+  have hsafe := parseNameAddrPVal_safe h b o pf (Or.inr ⟨hnf, hS⟩) hr
+  have hok : naOK b o pf := Or.inr ⟨hS.hi, hS.pend, hS.vend⟩
+  have hr0 := hr
+  unfold parseNameAddrPVal at hr
+  rw [if_neg hnf] at hr
+  simp only [Prod.mk.injEq] at hr
+  have key := runLoop_inv (naMachine h) b
+    (fun i st => lo ≤ i ∧ (st.state = .init ∨ 0 < i) ∧ NaSafe b i st ∧ NnInv lo st)
+    (fun r => NnDone lo r.2.1 r.2.2)
+    (by
+      intro i c st i' st' hb hP hs
+      have hlt := get?_lt hb
+      refine ⟨fun hlt' => ⟨by omega, Or.inr (by omega), na_safeCont h b i c st i' st' hb hP.2.2.1 hs hlt',
+        na_nnCont h b i lo c st (by omega) hP.1 hP.2.1 hP.2.2.1 hP.2.2.2 hs⟩, fun _ => ?_⟩
+      exact NnDone.err (by intro hh; cases hh) (by intro hh; cases hh) (by intro hh; cases hh))
+    (by
+      intro i c st o1 e1 st1 hb hP hs
+      have hlt := get?_lt hb
+      exact naStep_nndone h b i lo c st (by omega) hP.1 hP.2.2.1 hP.2.2.2 hs)
+    (by
+      intro i st _ hP
+      exact NnDone.more hP.2.2.2.saveS)
+    o { pf with s := pf.soffs, soffs := 0 } ⟨hlo, hpos, hS, hI⟩
+  rcases hrl : runLoop (naMachine h) b o { pf with s := pf.soffs, soffs := 0 } with ⟨o1, e1, p1⟩
+  rw [hrl] at key hr
+  simp only at key hr
+  obtain ⟨rfl, rfl, rfl⟩ := hr
+  refine ⟨fun hc => ?_, fun hm => ?_⟩
+  · have hk := key.1 hc
+    have hx : naExit pf.soffs e1 p1 = { p1 with s := 0 } := by
+      unfold naExit
+      rcases hc with hc | hc <;> rw [hc] <;> rfl
+    rw [hx]
+    exact ⟨NaNest.congr (p := p1) rfl rfl rfl rfl rfl hk.1, hk.2⟩
+  · subst hm
+    have hk := key.2 rfl
+    have hI2 : naInv2 b o { pf with s := pf.soffs, soffs := 0 } := ⟨⟨hS.hi, hS.pend, hS.vend⟩, rfl⟩
+    have hmi := na_more_inv h b o _ hI2 hnf hrl
+    have hps := na_more_pos h b o { pf with s := pf.soffs, soffs := 0 } hpos hrl
+    have hrg := parseNameAddrPVal_more_range h b o pf hok hr0
+    have hEn := hsafe.2 rfl
+    have hx : ({ naExit pf.soffs Err.moreBytes p1 with s := (naExit pf.soffs Err.moreBytes p1).soffs, soffs := 0 } : PFromBody) =
+        { p1 with soffs := 0 } := by
+      show ({ p1 with s := p1.soffs, soffs := 0 } : PFromBody) = { p1 with soffs := 0 }
+      rw [hmi.2.2]
+    refine ⟨by omega, hmi.2.1, hps, ?_, ?_⟩
+    · rcases hEn with hEn | hEn
+      · exact absurd hEn.1 hmi.2.1
+      · exact hEn.2
+    · rw [hx]; exact hk.soffs 0
+
+/-! ### what `NaNest` says -/
+
+theorem nn_unset {f : PField} (h : f.offs = 0 ∧ f.len = 0) : f = {} := by
+  rcases f with ⟨a, l⟩
+  obtain ⟨h1, h2⟩ := h
+  simp only at h1 h2
+  subst h1; subst h2; rfl
+
+/-- **`NaNest`, spelled out** (a field `[offs, offs+len)`; an unset field is `{}` = `⟨0,0⟩`):
+    * the URI lies inside the value;
+    * the display name, if reported, starts inside the value and ends at or before the start of the URI;
+    * the parameter span, if reported, starts at or after the end of the URI, inside the value, and ends exactly
+      where the value ends;
+    * the tag, if reported, lies inside the parameter span (which is then reported), hence inside the value. -/
+theorem NaNest.meaning {pf : PFromBody} (h : NaNest pf) :
+    (pf.v.offs ≤ pf.uri.offs ∧ pf.uri.offs + pf.uri.len ≤ pf.v.offs + pf.v.len) ∧
+    (pf.name = {} ∨
+      (pf.v.offs ≤ pf.name.offs ∧ pf.name.offs + pf.name.len ≤ pf.uri.offs ∧
+       pf.name.offs + pf.name.len ≤ pf.v.offs + pf.v.len)) ∧
+    (pf.params = {} ∨
+      (pf.v.offs ≤ pf.params.offs ∧ pf.uri.offs + pf.uri.len ≤ pf.params.offs ∧
+       pf.params.offs + pf.params.len = pf.v.offs + pf.v.len)) ∧
+    (pf.tag = {} ∨
+      (pf.params ≠ {} ∧ pf.params.offs ≤ pf.tag.offs ∧
+       pf.tag.offs + pf.tag.len ≤ pf.params.offs + pf.params.len ∧
+       pf.v.offs ≤ pf.tag.offs ∧ pf.tag.offs + pf.tag.len ≤ pf.v.offs + pf.v.len)) := by
+  obtain ⟨a1, a2, a3, a4, a5, a6⟩ := h
+  refine ⟨⟨a1, a2⟩, ?_, ?_, ?_⟩
+  · rcases a3 with a3 | a3
+    · exact Or.inl (nn_unset a3)
+    · exact Or.inr ⟨a3, a4, by omega⟩
+  · rcases a5 with a5 | a5
+    · exact Or.inl (nn_unset a5)
+    · exact Or.inr ⟨by omega, a5.1, a5.2⟩
+  · rcases a6 with a6 | a6
+    · exact Or.inl (nn_unset a6)
+    · refine Or.inr ⟨?_, a6.2.1, a6.2.2, ?_, ?_⟩
+      · intro hp
+        have : pf.params.offs = 0 := by rw [hp]
+        exact a6.1 this
+      · rcases a5 with a5 | a5 <;> omega
+      · rcases a5 with a5 | a5 <;> omega
+
+/-- one call on a new object (the form used by the callers that parse a value in one go) -/
+theorem parseNameAddrPVal_nest_new (h : Nat) (b : Buf) (o : Nat) (hfit : b.size ≤ 65535) (ho : o ≤ b.size)
+    {o' : Nat} {e : Err} {pf' : PFromBody} (hr : parseNameAddrPVal h b o {} = (o', e, pf'))
+    (hc : Err.complete e) : NaNest pf' ∧ o ≤ pf'.v.offs :=
+  (parseNameAddrPVal_nest h b o o {} hfit (NnEntry_new b o ho) hr).1 hc
+
+/-! ### non-vacuity (tests: closed computations on the model) -/
+
+/-- test input: quoted display name with an escaped quote, URI with its own parameter, three header parameters
+    (the tag in the middle), parsed from offset 2 -/
+def nnExBuf : Buf := "xx\"Bob \\\" x\" <sip:a@b;x=y>;a=b;tag=xyz;c\r\n\r\n".toUTF8.data
+
+example : (parseNameAddrPVal HdrFrom nnExBuf 2 {}).2.1 = Err.ok := by decide +kernel
+example : (parseNameAddrPVal HdrFrom nnExBuf 2 {}).2.2.name = ⟨2, 11⟩ ∧
+    (parseNameAddrPVal HdrFrom nnExBuf 2 {}).2.2.uri = ⟨14, 11⟩ ∧
+    (parseNameAddrPVal HdrFrom nnExBuf 2 {}).2.2.params = ⟨27, 13⟩ ∧
+    (parseNameAddrPVal HdrFrom nnExBuf 2 {}).2.2.tag = ⟨35, 3⟩ ∧
+    (parseNameAddrPVal HdrFrom nnExBuf 2 {}).2.2.v = ⟨2, 38⟩ := by decide +kernel
+
+/-- the theorem applies to it (its hypotheses are satisfiable on a non-trivial input) -/
+example : NaNest (parseNameAddrPVal HdrFrom nnExBuf 2 {}).2.2 :=
+  (parseNameAddrPVal_nest_new HdrFrom nnExBuf 2 (by decide +kernel) (by decide +kernel) rfl
+    (Or.inl (by decide +kernel))).1
+
+/-- test: a bare URI with parameters after white space, closed by a comma (MoreValues) -/
+example : (parseNameAddrPVal HdrContact "sip:a@b ;tag=1 , <sip:c>\r\n\r\n".toUTF8.data 0 {}).2.1 = Err.moreValues ∧
+    (parseNameAddrPVal HdrContact "sip:a@b ;tag=1 , <sip:c>\r\n\r\n".toUTF8.data 0 {}).2.2.params = ⟨9, 5⟩ ∧
+    (parseNameAddrPVal HdrContact "sip:a@b ;tag=1 , <sip:c>\r\n\r\n".toUTF8.data 0 {}).2.2.tag = ⟨13, 1⟩ ∧
+    (parseNameAddrPVal HdrContact "sip:a@b ;tag=1 , <sip:c>\r\n\r\n".toUTF8.data 0 {}).2.2.v = ⟨0, 14⟩ := by
+  decide +kernel
+
+/-- test: `*` — the URI field is the value itself -/
+example : (parseNameAddrPVal HdrContact " * \r\n\r\n".toUTF8.data 0 {}).2.1 = Err.ok ∧
+    (parseNameAddrPVal HdrContact " * \r\n\r\n".toUTF8.data 0 {}).2.2.uri = ⟨1, 1⟩ ∧
+    (parseNameAddrPVal HdrContact " * \r\n\r\n".toUTF8.data 0 {}).2.2.v = ⟨1, 1⟩ := by decide +kernel
+
 end Sipsp
